@@ -5,6 +5,8 @@
 // displayRoute() of every connector, the polyline visibility graph (with vertex ids) and the
 // orthogonal visibility graph.  Routers are deleted at the end (ASan/LSan build).
 #include "avoid_scene.h"
+#include <unistd.h>
+#include <sys/wait.h>
 using namespace Avoid;
 
 struct ConnSpec { unsigned id; double sx, sy, dx, dy; bool orth; };
@@ -47,28 +49,7 @@ static bool orthEndpointInBBox(const vs::Scene &s, const std::vector<ConnSpec> &
     return false;
 }
 
-static void runCase(long k, const char *tagIn, const vs::Scene &s, const std::vector<ConnSpec> &conns, const Cfg &cfg) {
-    // Finding classes get their own tag (classes are kept disjoint by the generator):
-    //   naive-vis-collinear / lee-collinear : polyline routing on a scene with three collinear graph points
-    //   orth-nudge-endsegs                  : pure orthogonal router with nudgeOrthogonalSegmentsConnectedToShapes
-    //   orth-endpoint-in-bbox               : pure orthogonal router, endpoint inside the bounding box of a non-rectangle
-    std::string tag = tagIn;
-    if (cfg.allowPoly) {
-        std::vector<Point> eps;
-        for (auto &c : conns) { eps.push_back(Point(c.sx, c.sy)); eps.push_back(Point(c.dx, c.dy)); }
-        if (vs::hasCollinearTriple(vs::routingPolys(s, cfg.buffer), eps)) tag = cfg.lee ? "lee-collinear" : "naive-vis-collinear";
-    } else if (cfg.option[nudgeOrthogonalSegmentsConnectedToShapes] == 1) tag = "orth-nudge-endsegs";
-    else if (orthEndpointInBBox(s, conns, cfg.buffer)) tag = "orth-endpoint-in-bbox";
-    vh::beginCase(k, tag.c_str());
-    // ---- inputs
-    printf("cfg poly %d orth %d lee %d ignoreRegions %d invis %d\n", cfg.allowPoly, cfg.allowOrth, cfg.lee, cfg.ignoreRegions, cfg.invis);
-    for (int i = 0; i < lastRoutingParameterMarker; ++i) if (cfg.paramSet[i]) printf("param %s %s\n", paramName[i], vh::hx(cfg.param[i]).c_str());
-    for (int i = 0; i < lastRoutingOptionMarker; ++i) if (cfg.option[i] >= 0) printf("option %s %d\n", optionName[i], cfg.option[i]);
-    for (size_t i = 0; i < s.shapes.size(); ++i) vs::printShape((unsigned) (i + 1), s.shapes[i]);
-    for (auto &c : conns) printf("conn %u %s %s %s %s %s\n", c.id, vh::hx(c.sx).c_str(), vh::hx(c.sy).c_str(),
-                                 vh::hx(c.dx).c_str(), vh::hx(c.dy).c_str(), c.orth ? "orth" : "poly");
-    fflush(stdout);
-    // ---- run
+static void runBody(const vs::Scene &s, const std::vector<ConnSpec> &conns, const Cfg &cfg) {
     unsigned flags = (cfg.allowPoly ? PolyLineRouting : 0) | (cfg.allowOrth ? OrthogonalRouting : 0);
     Router *router = new Router(flags);
     router->UseLeesAlgorithm = cfg.lee;
@@ -107,6 +88,58 @@ static void runCase(long k, const char *tagIn, const vs::Scene &s, const std::ve
                vh::hx(ps.second.x).c_str(), vh::hx(ps.second.y).c_str());
     }
     delete router;
+}
+
+static void runCase(long k, const char *tagIn, const vs::Scene &s, const std::vector<ConnSpec> &conns, const Cfg &cfg) {
+    // Finding classes get their own tag (classes are kept disjoint by the generator):
+    //   naive-vis-collinear / lee-collinear : polyline routing on a scene with three collinear graph points
+    //   orth-nudge-endsegs                  : pure orthogonal router with nudgeOrthogonalSegmentsConnectedToShapes
+    //   orth-endpoint-in-bbox               : pure orthogonal router, endpoint inside the bounding box of a non-rectangle
+    std::string tag = tagIn;
+    if (cfg.allowPoly) {
+        std::vector<Point> eps;
+        for (auto &c : conns) { eps.push_back(Point(c.sx, c.sy)); eps.push_back(Point(c.dx, c.dy)); }
+        if (vs::hasCollinearTriple(vs::routingPolys(s, cfg.buffer), eps)) tag = cfg.lee ? "lee-collinear" : "naive-vis-collinear";
+    } else if (cfg.option[nudgeOrthogonalSegmentsConnectedToShapes] == 1) tag = "orth-nudge-endsegs";
+    else if (orthEndpointInBBox(s, conns, cfg.buffer)) tag = "orth-endpoint-in-bbox";
+    vh::beginCase(k, tag.c_str());
+    // ---- inputs
+    printf("cfg poly %d orth %d lee %d ignoreRegions %d invis %d\n", cfg.allowPoly, cfg.allowOrth, cfg.lee, cfg.ignoreRegions, cfg.invis);
+    for (int i = 0; i < lastRoutingParameterMarker; ++i) if (cfg.paramSet[i]) printf("param %s %s\n", paramName[i], vh::hx(cfg.param[i]).c_str());
+    for (int i = 0; i < lastRoutingOptionMarker; ++i) if (cfg.option[i] >= 0) printf("option %s %d\n", optionName[i], cfg.option[i]);
+    for (size_t i = 0; i < s.shapes.size(); ++i) vs::printShape((unsigned) (i + 1), s.shapes[i]);
+    for (auto &c : conns) printf("conn %u %s %s %s %s %s\n", c.id, vh::hx(c.sx).c_str(), vh::hx(c.sy).c_str(),
+                                 vh::hx(c.dx).c_str(), vh::hx(c.dy).c_str(), c.orth ? "orth" : "poly");
+    fflush(stdout);
+    // ---- run in a child process, so that a failed assertion / sanitizer abort inside libavoid ends this
+    //      case only: the parent then emits a `crash` line (with the first line of the child's stderr)
+    //      and continues with the next case.  LSan runs at the child's exit().
+    int fds[2];
+    if (pipe(fds) != 0) { perror("pipe"); exit(3); }
+    fflush(stdout);
+    pid_t pid = fork();
+    if (pid == 0) {
+        close(fds[0]); dup2(fds[1], 2); close(fds[1]);
+        runBody(s, conns, cfg);
+        fflush(stdout);
+        exit(0);
+    }
+    close(fds[1]);
+    std::string err; char buf[4096]; ssize_t n;
+    while ((n = read(fds[0], buf, sizeof buf)) > 0) if (err.size() < 20000) err.append(buf, (size_t) n);
+    close(fds[0]);
+    int status = 0; waitpid(pid, &status, 0);
+    if (!(WIFEXITED(status) && WEXITSTATUS(status) == 0)) {
+        // one-line summary: the assertion / sanitizer headline
+        std::string line;
+        size_t pos = err.find("Assertion"); if (pos == std::string::npos) pos = err.find("ERROR: "); if (pos == std::string::npos) pos = err.find("runtime error");
+        if (pos == std::string::npos) pos = 0;
+        size_t b = err.rfind('\n', pos); b = (b == std::string::npos) ? 0 : b + 1;
+        size_t e = err.find('\n', pos); line = err.substr(b, (e == std::string::npos ? err.size() : e) - b);
+        for (auto &ch : line) if (ch == '\r' || ch == '\t') ch = ' ';
+        printf("crash %s %d : %s\n", WIFSIGNALED(status) ? "signal" : "exit", WIFSIGNALED(status) ? WTERMSIG(status) : WEXITSTATUS(status), line.c_str());
+        fprintf(stderr, "%s\n", err.c_str());
+    }
     vh::endCase();
 }
 
@@ -124,6 +157,29 @@ int main(int argc, char **argv) {
         Cfg cfg; cfg.lee = (lee == 1);
         runCase(k, lee ? "witness-lee-diagonal" : "witness-naive-diagonal", s, cs, cfg);
     }
+    // ---- fixed witness (default configuration): the leg (14,7)-(28,21) of the route runs along the
+    //      diagonal of the square [21,28]x[14,21]
+    if (a.want(k)) {
+        vs::Scene s; s.W = 28; s.H = 28;
+        s.shapes.push_back(vs::toD(vs::rectPoly(13, 7, 14, 13))); s.shapes.push_back(vs::toD(vs::rectPoly(21, 21, 28, 28)));
+        s.shapes.push_back(vs::toD(vs::rectPoly(21, 14, 28, 21))); s.isRect.assign(3, true);
+        std::vector<ConnSpec> cs; cs.push_back({101, 12.5, 7, 28, 29, false});
+        Cfg cfg;
+        runCase(k, "witness-lee-diagonal3", s, cs, cfg);
+    }
+    ++k;
+    // ---- fixed witness (default algorithm, buffer 2): the source gets no visibility edge at all and the
+    //      route falls back to the straight segment through the pentagon
+    if (a.want(k)) {
+        vs::Scene s; s.W = 36; s.H = 20;
+        vs::IPoly p2; p2.push_back({5, 9}); p2.push_back({5, 5}); p2.push_back({6, 5}); p2.push_back({9, 6}); p2.push_back({8, 8});
+        vs::IPoly p6; p6.push_back({31, 14}); p6.push_back({35, 17}); p6.push_back({33, 18}); p6.push_back({31, 18});
+        s.shapes.push_back(vs::toD(p2)); s.shapes.push_back(vs::toD(p6)); s.isRect.assign(2, false);
+        std::vector<ConnSpec> cs; cs.push_back({103, 17, 1, 1, 8, false});
+        Cfg cfg; cfg.buffer = 2; setParam(cfg, shapeBufferDistance, 2);
+        runCase(k, "witness-lee-novis", s, cs, cfg);
+    }
+    ++k;
     // ---- random scenes
     long nrand = (thorough ? 1500 : 260) * a.scale;
     if (a.n >= 0) nrand = a.n;
